@@ -393,6 +393,10 @@ func (vfs *MemFS) Lstat(path string) (fs.FileInfo, error) {
 	}
 
 	fst := child.fillStatFrom(pi.Part())
+	if fst.nlink == 0 && fst.mode.IsRegular() {
+		// the file has been removed since the search.
+		return nil, &fs.PathError{Op: op, Path: path, Err: vfs.err.NoSuchFile}
+	}
 
 	return fst, nil
 }
@@ -466,25 +470,42 @@ func (vfs *MemFS) Mkdir(name string, perm fs.FileMode) error {
 // If name is already a directory, MkdirAll does nothing
 // and returns nil.
 func (vfs *MemFS) MkdirAll(path string, perm fs.FileMode) error {
+	for {
+		again, err := vfs.mkdirAll(path, perm)
+		if !again {
+			return err
+		}
+	}
+}
+
+// mkdirAll makes one attempt to create the missing directories of path.
+// It returns again = true if the first missing directory has been created by another call
+// between the search of path and the moment its parent was locked.
+func (vfs *MemFS) mkdirAll(path string, perm fs.FileMode) (again bool, err error) {
 	const op = "mkdir"
 
 	parent, child, pi, err := vfs.searchNode(path, slmEval)
 	switch child.(type) {
 	case *dirNode:
 		if err != vfs.err.FileExists {
-			return &fs.PathError{Op: op, Path: path, Err: err}
+			return false, &fs.PathError{Op: op, Path: path, Err: err}
 		}
 
-		return nil
+		return false, nil
 	case *fileNode:
-		return &fs.PathError{Op: op, Path: pi.LeftPart(), Err: vfs.err.NotADirectory}
+		return false, &fs.PathError{Op: op, Path: pi.LeftPart(), Err: vfs.err.NotADirectory}
 	}
 
 	parent.mu.Lock()
 	defer parent.mu.Unlock()
 
 	if !parent.checkPermission(avfs.OpenWrite|avfs.OpenLookup, vfs.User()) {
-		return &fs.PathError{Op: op, Path: path, Err: vfs.err.PermDenied}
+		return false, &fs.PathError{Op: op, Path: path, Err: vfs.err.PermDenied}
+	}
+
+	if parent.children[pi.Part()] != nil {
+		// the first missing directory has been created since the search.
+		return true, nil
 	}
 
 	dn := parent
@@ -502,7 +523,7 @@ func (vfs *MemFS) MkdirAll(path string, perm fs.FileMode) error {
 		}
 	}
 
-	return nil
+	return false, nil
 }
 
 // MkdirTemp creates a new temporary directory in the directory dir
@@ -965,6 +986,10 @@ func (vfs *MemFS) Stat(path string) (fs.FileInfo, error) {
 	}
 
 	fst := child.fillStatFrom(pi.Part())
+	if fst.nlink == 0 && fst.mode.IsRegular() {
+		// the file has been removed since the search.
+		return nil, &fs.PathError{Op: op, Path: path, Err: vfs.err.NoSuchFile}
+	}
 
 	return fst, nil
 }
